@@ -293,7 +293,10 @@ pub fn make_provider_error(a: &Answer, val: usize) -> BoxError {
             "HarnessError" => Box::new(HarnessError(msg)),
             "String" => msg.into(),
             "SignatureError::IO" => {
-                Box::new(SignatureError::IO(std::io::Error::new(std::io::ErrorKind::BrokenPipe, msg)))
+                // the status is fixed by the kind of SignatureError, not by what the io::Error says
+                use std::io::ErrorKind::*;
+                let kinds = [BrokenPipe, TimedOut, NotFound, Other, UnexpectedEof, ConnectionRefused, Interrupted, WouldBlock];
+                Box::new(SignatureError::IO(std::io::Error::new(kinds[val % kinds.len()], msg)))
             }
             _ => Box::new(SignatureError::InternalServiceError(Box::new(HarnessError(msg)))),
         },
